@@ -300,6 +300,7 @@ pub fn run(ctx: &Ctx) {
         }
     });
     count_layer(ctx);
+    nil_layer(ctx);
 }
 
 /// Size thresholds of the replay queues: long lists. The decisive limits only.
@@ -428,6 +429,71 @@ fn check_counts(v: &O, xml: &str, peak: usize, total: usize) -> Result<u64, Stri
     Ok(n)
 }
 
+/// A struct with list fields and an optional element presented as `xsi:nil`: the position of the nil
+/// element among the list items must not matter.
+#[derive(Serialize, Deserialize, PartialEq, Debug, Clone)]
+pub struct WithNil {
+    #[serde(default)]
+    pub a: Vec<String>,
+    #[serde(default)]
+    pub n: Option<String>,
+    #[serde(default)]
+    pub c: Vec<()>,
+}
+
+fn nil_layer(ctx: &Ctx) {
+    const XSI: &str = "http://www.w3.org/2001/XMLSchema-instance";
+    let known = Known::load();
+    // (number of a items, number of c items, where xsi is declared: 0 root, 1 on the element itself)
+    let total = 4 * 3 * 2;
+    ctx.layer("nil_element_position", 2, total, json!({"type": "{a: Vec<String>, n: Option<String>, c: Vec<()>}", "a_items": "0..=3", "c_items": "0..=2", "xsi_declared": ["on the root", "on the element"], "positions": "the nil element at every position of every interleaving of the a and c items"}), |i, acc| {
+        let na = (i % 4) as usize;
+        let nc = ((i / 4) % 3) as usize;
+        let local = i / 12 == 1;
+        let ga: Vec<Child> = (0..na).map(|k| leaf('a', &format!("x{}", k))).collect();
+        let gc: Vec<Child> = (0..nc).map(|_| leaf('c', "")).collect();
+        let want = WithNil { a: (0..na).map(|k| format!("x{}", k)).collect(), n: None, c: vec![(); nc] };
+        let nil = if local { format!("<n xmlns:xsi=\"{}\" xsi:nil=\"true\"/>", XSI) } else { "<n xsi:nil=\"true\"/>".to_string() };
+        let root = if local { "<r>".to_string() } else { format!("<r xmlns:xsi=\"{}\">", XSI) };
+        for kids in interleavings(&[ga.clone(), gc.clone()]) {
+            for pos in 0..=kids.len() {
+                let mut xml = root.clone();
+                for (k, ch) in kids.iter().enumerate() {
+                    if k == pos {
+                        xml.push_str(&nil);
+                    }
+                    xml.push_str(&ch.xml);
+                }
+                if pos == kids.len() {
+                    xml.push_str(&nil);
+                }
+                xml.push_str("</r>");
+                acc.evaluations += 2;
+                acc.traces += 1;
+                acc.transitions += 2;
+                for via_reader in [false, true] {
+                    let got = guarded(|| {
+                        if via_reader {
+                            quick_xml::de::from_reader::<_, WithNil>(xml.as_bytes()).map_err(|e| format!("{:?}", e))
+                        } else {
+                            quick_xml::de::from_str::<WithNil>(&xml).map_err(|e| format!("{:?}", e))
+                        }
+                    });
+                    match got {
+                        Ok(Ok(v)) if v == want => acc.nt_count += 1,
+                        // F17: a nil element that was skipped (it follows an item of a list that is being collected) and is
+                        // replayed later resolves its prefix in the scope the reader has reached by then
+                        Ok(Ok(v)) if known.is_open("F17") && pos > 0 && v.n.as_deref() == Some("") && v.a == want.a && v.c == want.c => {
+                            acc.known("F17", || format!("{:?} gives n: Some(\"\")", xml));
+                        }
+                        other => acc.violation((2, i), format!("document {:?} ({}) deserializes as {:?}, with the nil element in front of the list items it is {:?}", xml, if via_reader { "from_reader" } else { "from_str" }, other, want), json!({"nil_doc": xml})),
+                    }
+                }
+            }
+        }
+    });
+}
+
 fn count_layer(ctx: &Ctx) {
     let t = ctx.tier;
     let ns: Vec<u32> = crate::inputs::size_list(t.pick(24, 80), t.pick(12, 16));
@@ -453,6 +519,14 @@ fn count_layer(ctx: &Ctx) {
 }
 
 pub fn replay(case: &Value) -> Result<(), String> {
+    if let Some(doc) = case.get("nil_doc").and_then(|d| d.as_str()) {
+        let r = quick_xml::de::from_str::<WithNil>(doc);
+        println!("document {:?}\nfrom_str => {:?}", doc, r);
+        return match r {
+            Ok(v) if v.n.is_none() => Ok(()),
+            other => Err(format!("{:?}", other)),
+        };
+    }
     if let Some(shape) = case.get("count_shape").and_then(|s| s.as_u64()) {
         let n = case["n"].as_u64().unwrap_or(0) as usize;
         let (v, kids) = count_doc(shape as usize, n);
